@@ -1787,6 +1787,9 @@ func (ls *LState) ObjLen(v1 LValue) int {
 /* binary operations {{{ */
 
 func (ls *LState) Concat(values ...LValue) string {
+	if len(values) == 0 {
+		return "" // as lua_concat(L, 0)
+	}
 	top := ls.reg.Top()
 	for _, value := range values {
 		ls.reg.Push(value)
